@@ -593,8 +593,8 @@ def check_emit_state(ck, prog, rule="C01-EMITSTATE"):
         {b for b in f.blocks if b in cfg.reachable(f, [y for y in f.blocks[b].succs if y is not None])}
     rets_in_loop = [b.id for b, i, e in f.iter_elems() if ex.deref(e).get("k") == "ret"
                     and any(p in loop for p in f.blocks[b.id].preds)]
-    if not loop or not rets_in_loop:
-        raise AnalysisBroken("rc_shift_low: loop with an early return not found")
+    if not loop:
+        raise AnalysisBroken("rc_shift_low: byte loop not found")
     declared_in_loop = set()
     for b, i, e in f.iter_elems():
         d = ex.deref(e)
@@ -610,12 +610,58 @@ def check_emit_state(ck, prog, rule="C01-EMITSTATE"):
             n += 1
             if ls is not None and ls.get("k") == "var" and ls.get("s") != "p" and ls["n"] not in declared_in_loop:
                 bad = bad or (ls["n"], node)
+    if not rets_in_loop:
+        bad = None      # the loop cannot be left by a return: nothing is carried across a re-entry (OUTPOS/OUTIDX decide the bounds)
     ck.ob(rule, "rc_shift_low", bad is None, common.where(f, bad[1] if bad else None),
           "rc_shift_low: the %d stores inside the byte loop go to rc members / *out_pos / out[]" % n if bad is None else
           "rc_shift_low(): local `%s` is assigned inside the byte loop (`%s`) but the function returns from inside that loop "
           "when the output buffer is full and starts again from the top on the next call: the value is lost, so the bytes "
           "emitted depend on where the output buffer ended" % (bad[0], ex.show(bad[1])[:60]),
           key="EMITSTATE:rc_shift_low")
+    # a byte that was emitted from a member (rc->cache) is not emitted again by a re-entered call: the member is
+    # overwritten before the function can return with "output full"
+    susp = set()
+    for b, i, e in f.iter_elems():
+        d = ex.deref(e)
+        if d.get("k") == "ret" and d.get("e") is not None and ex.const_val(ex.strip(d["e"])) == 1:
+            susp.add(b.id)
+    if not susp:
+        raise AnalysisBroken("rc_shift_low: `return true` not found")
+    nem, bad2 = 0, None
+    for b, i, e in f.iter_elems():
+        for (l, r, op, node) in ex.writes(e):
+            ls = ex.strip(l)
+            if not (ls is not None and ls.get("k") == "idx" and ex.show(ls["b"]) == "out" and r is not None):
+                continue
+            mems = sorted({ex.show(x) for x in ex.walk(r) if x.get("k") == "mem" and ex.show(x).startswith("rc->")
+                           and x.get("f") not in ("low",)})
+            for M in mems:
+                nem += 1
+
+                def stores_M(bid, after=-1):
+                    return any(ex.show(l2) == M for ii, e2 in enumerate(f.blocks[bid].elems) if e2 is not None and ii > after
+                               for (l2, r2, op2, n2) in ex.writes(e2))
+                if stores_M(b.id, i):
+                    continue
+                seen, st = set(), [y for y in b.succs if y is not None]
+                while st:
+                    x = st.pop()
+                    if x in seen:
+                        continue
+                    seen.add(x)
+                    if x in susp:
+                        bad2 = bad2 or (M, node)
+                        break
+                    if stores_M(x):
+                        continue
+                    st.extend(y for y in f.blocks[x].succs if y is not None)
+    if nem < 1:
+        raise AnalysisBroken("rc_shift_low: no emission that reads an rc member")
+    ck.ob(rule, "rc_shift_low:emitted-member-replaced", bad2 is None, common.where(f, bad2[1] if bad2 else None),
+          "rc_shift_low: a member that was emitted is overwritten before the function can return with the output full" if bad2 is None else
+          "rc_shift_low(): after `%s` has emitted %s the function can return true (output full) without storing a new value to %s: "
+          "the re-entered call emits the stale value again, so the compressed bytes depend on where the output buffer ended" % (
+              ex.show(bad2[1])[:60], bad2[0], bad2[0]), key="EMITSTATE:rc_shift_low:emitted-member-replaced")
 
 
 def check_outpos(ck, prog):
@@ -866,6 +912,17 @@ def check_order(ck, prog):
           "uncompressed chunk copies from, and the chunk contains wrong bytes", key="ORDER:lzma2-history-reserve")
 
 
+def check_drain(ck, prog, rule="C01-DRAIN"):
+    from .oblig import MP as _MP, evaluate as _evaluate
+    ck.rule(rule, "lzma_lzma_encode reports the end of the stream only after rc_encode() has written every pending byte")
+    _evaluate(ck, prog, rule, [
+        _MP("end-after-drain", "lzma_lzma_encode", "lzma_encoder.c", [("test", "call:rc_encode", "F")],
+            ("ret", ("LZMA_STREAM_END",)), plain=True,
+            why="LZMA_STREAM_END is returned only on paths where an rc_encode() call reported that nothing is left pending "
+                "(otherwise the last bytes of an .lzma stream are lost when the output buffer filled during the final flush)"),
+    ], floor=1)
+
+
 def run(ck):
     ck.explanation = (
         "Path-shape and table clauses of losslessness: the match finders advance the window exactly once per byte "
@@ -891,13 +948,10 @@ def run(ck):
     # a mid-stream lc/lp/pb change must reset the encoder's model too (C12), and the size bound that becomes the Compressed
     # Size of the uncompressed fallback must be exact (C02): both are necessary for the stream to decode to the input
     from .oblig import MP as _MP, evaluate as _evaluate
-    ck.rule("C01-DRAIN", "lzma_lzma_encode reports the end of the stream only after rc_encode() has written every pending byte")
-    _evaluate(ck, common.program(ck, ("liblzma",)), "C01-DRAIN", [
-        _MP("end-after-drain", "lzma_lzma_encode", "lzma_encoder.c", [("test", "call:rc_encode", "F")],
-            ("ret", ("LZMA_STREAM_END",)), plain=True,
-            why="LZMA_STREAM_END is returned only on paths where an rc_encode() call reported that nothing is left pending "
-                "(otherwise the last bytes of an .lzma stream are lost when the output buffer filled during the final flush)"),
-    ], floor=1)
+    check_drain(ck, common.program(ck, ("liblzma",)))
+    # a Delta filter in the chain: its encoder loops and the decoder's loop are inverse of each other (shared with C15)
+    from . import C15 as _C15
+    _C15.check_delta(ck, common.program(ck, ("liblzma",)), rule="C01-DELTA")
     from . import C12, C02
     ck.rule("C12-UPD", "update functions: allowed states and validation order")
     C12.check_upd(ck, common.program(ck, ("liblzma",)))
